@@ -205,16 +205,55 @@ Proof.
   right. exists n. reflexivity.
 Qed.
 
+(* the TestRequest gate of send_msg (R13c: a TestRequest goes out only when it carries the id of the pending probe) *)
+Definition treq_gate (m : msg) (w0 : world) : M unit :=
+  match mkind m, treq w0 with
+  | KTestReq, None => raise XConn
+  | KTestReq, Some t =>
+      match get T112 (mtags m) with
+      | Some v => if str_eqb v (z_to_dec t) then ret tt else raise XConn
+      | None => raise XConn
+      end
+  | _, _ => ret tt
+  end.
+
+Lemma send_tail_unfold c m w0 : send_tail c m w0 = (treq_gate m w0 ;;; send_write c m).
+Proof. reflexivity. Qed.
+
+Lemma treq_gate_cases m w0 w :
+  (treq_gate m w0 w = mkR (inr XConn) w [] /\ mkind m = KTestReq) \/ treq_gate m w0 w = mkR (inl tt) w [].
+Proof.
+  unfold treq_gate. destruct (mkind m), (treq w0); auto.
+  destruct (get T112 (mtags m)) as [v|]; [destruct (str_eqb v _)|]; auto.
+Qed.
+
+Lemma treq_gate_pass m w0 w : mkind m <> KTestReq -> treq_gate m w0 w = mkR (inl tt) w [].
+Proof. intros H. destruct (treq_gate_cases m w0 w) as [[_ Hk]|Hg]; [congruence|exact Hg]. Qed.
+
+(* the exact refusal condition of the TestRequest gate *)
+Definition treq_refuses (m : msg) (w : world) : bool :=
+  match mkind m with
+  | KTestReq => match treq w with
+                | None => true
+                | Some t => match get T112 (mtags m) with Some v => negb (str_eqb v (z_to_dec t)) | None => true end
+                end
+  | _ => false
+  end.
+
+Lemma treq_gate_spec m w0 w :
+  treq_gate m w0 w = if treq_refuses m w0 then mkR (inr XConn) w [] else mkR (inl tt) w [].
+Proof.
+  unfold treq_gate, treq_refuses. destruct (mkind m), (treq w0); try reflexivity.
+  destruct (get T112 (mtags m)) as [v|]; [destruct (str_eqb v _)|]; reflexivity.
+Qed.
+
 Lemma send_tail_wires c m w0 w :
   wires (re (send_tail c m w0 w)) = [] \/
   exists seq, wires (re (send_tail c m w0 w)) = [mkMsg (mtype m) (wire_tags c seq m)].
 Proof.
-  unfold send_tail. rewrite bind_unfold.
-  destruct (match mkind m, treq w0 with KTestReq, None => raise XConn | _, _ => ret tt end w) as [r1 w1 e1] eqn:E1.
-  assert (He1 : e1 = [] /\ w1 = w).
-  { destruct (mkind m), (treq w0); cbn in E1; inversion E1; auto. }
-  destruct He1; subst e1 w1. cbn [rv rw re]. destruct r1; cbn [rv rw re]; [|left; reflexivity].
-  cbn [app]. apply send_write_wires.
+  rewrite send_tail_unfold, bind_unfold.
+  destruct (treq_gate_cases m w0 w) as [[Hg _]|Hg]; rewrite Hg; cbn [rv rw re app]; [left; reflexivity|].
+  apply send_write_wires.
 Qed.
 
 Lemma send_msg_wires c m w :
